@@ -3,7 +3,8 @@
    shadow log): closedness of each view, deletion of the whole star across indices, the results of
    complexes(). *)
 From Coq Require Import String ZArith Bool Arith List.
-From SV Require Import Names NamesFacts ListFacts Rep Fresh Complex Atomic RepInv Homology Filtration FiltProofs.
+From SV Require Import Names NamesFacts ListFacts Rep Fresh Complex Atomic RepInv Homology Filtration FiltProofs Shapes SnapProofs.
+From SV Require Closed ClosedReach.
 Import ListNotations.
 
 (* the complex seen at index i consists of exactly the simplices of the filtration whose birth
@@ -35,3 +36,10 @@ Theorem C13_birth :
   (forall s, s <> n -> assoc s (f_appears f') = assoc s (f_appears f)) /\ finv f'.
 Proof. exact add_registers_birth. Qed.
 Print Assumptions C13_birth.
+
+(* every snapshot / every complex yielded by complexes() is a closed complex: shapes and k+1 faces
+   per simplex of order k (whatever the outcome of the copy) *)
+Theorem C13_snapshot_is_closed :
+  forall hp (f : filt) uid hp' c x, copy_new hp (f_view f) uid = (hp', c, x) -> Closed.cinv c.
+Proof. intros hp f uid hp' c x. exact (ClosedReach.copy_new_cinv hp (f_view f) uid hp' c x). Qed.
+Print Assumptions C13_snapshot_is_closed.
